@@ -2,7 +2,7 @@ package dcp
 
 // Bounded stand-in (property C17, labelled bounded): ${VAR} substitution by the real newDcpConfig.
 // Bound: 6 placeholder layouts (single, repeated in one value, repeated across options, adjacent, inside
-// a list element, inside a map value) x variable states {set, set to the empty string, unset} x 4 values.
+// a list element, inside a map value) x variable states {set, set to the empty string, unset} x 6 values (two with regexp-template characters: $$, $1, $name, &).
 // Oracle: every occurrence of ${NAME} is replaced by the variable's value when the variable is set
 // (also when it is set to the empty string) and left untouched when it is not set.
 
@@ -20,7 +20,7 @@ func TestVerifBoundedEnvPlaceholders(t *testing.T) {
 		set bool
 		val string
 	}
-	states := []env{{true, "alpha"}, {true, "b-2_x.y"}, {true, "p@ss:w0rd"}, {true, "0042"}, {true, ""}, {false, ""}}
+	states := []env{{true, "alpha"}, {true, "b-2_x.y"}, {true, "p@ss:w0rd"}, {true, "0042"}, {true, ""}, {false, ""}, {true, "pa$$w0rd$1x"}, {true, "$name-$0&"}}
 	expand := func(name string, e env) string {
 		if e.set {
 			return e.val
